@@ -207,3 +207,22 @@ impl Parts {
         self.partition = part;
     }
 }
+
+/// An inner header: stream id and key at the given positions among the binaries (which keep their
+/// relative order: their position is their identity), then the end field.
+pub fn inner_header(atts: &[(u8, Vec<u8>)], cipher: u32, key: &[u8], p_id: usize, p_key: usize) -> Vec<u8> {
+    let fld = |t: u8, b: &[u8]| { let mut v = vec![t]; v.extend_from_slice(&(b.len() as u32).to_le_bytes()); v.extend_from_slice(b); v };
+    let id_f = fld(1, &cipher.to_le_bytes());
+    let key_f = fld(2, key);
+    let bins: Vec<Vec<u8>> = atts.iter().map(|(f, c)| { let mut b = vec![*f]; b.extend_from_slice(c); fld(3, &b) }).collect();
+    let mut out = Vec::new();
+    for (i, b) in bins.iter().enumerate() {
+        if i == p_id { out.extend_from_slice(&id_f); }
+        if i == p_key { out.extend_from_slice(&key_f); }
+        out.extend_from_slice(b);
+    }
+    if p_id >= bins.len() { out.extend_from_slice(&id_f); }
+    if p_key >= bins.len() { out.extend_from_slice(&key_f); }
+    out.extend_from_slice(&fld(0, &[]));
+    out
+}
